@@ -69,4 +69,39 @@ def run():
     out["frame:C07/funsor-hash-is-identity"] = ob("discharged" if ok_hash else "refuted", meths.get("__hash__", "missing"))
     out["frame:C07/funsor-copy-returns-self"] = ob("discharged" if ok_copy else "refuted", meths.get("__copy__", "missing"))
     out["frame:C07/funsor-pickle-reconstructs-through-interning-constructor"] = ob("discharged" if ok_reduce else "refuted", meths.get("__reduce__", "missing"))
+    out.update(strong_memo_scan())
     return out
+
+
+# strong memo caches: a functools.lru_cache / functools.cache keeps its ARGUMENTS alive; one keyed on terms or arrays would hold
+# every term it ever saw (and its sub-terms and backing arrays) strongly, whatever the weak intern tables do.  The reviewed
+# ones are keyed on types / domains / shapes only.  Backend-specific modules (torch / jax) are outside the numpy scope.
+MEMO_ALLOW = {
+    ("funsor/typing.py", "deep_issubclass"): "arguments are types",
+    ("funsor/distribution.py", "DistributionMeta2._infer_value_domain"): "arguments are domains",
+    ("funsor/distribution.py", "DistributionMeta2._infer_param_domain"): "arguments are a name and a shape",
+    ("funsor/distribution.py", "Distribution._infer_value_domain"): "arguments are domains",
+    ("funsor/distribution.py", "Distribution._infer_param_domain"): "arguments are a name and a shape",
+}
+MEMO_NAMES = {"lru_cache", "cache", "cached_property"}
+
+
+def strong_memo_scan():
+    found, new = [], []
+    for rel in funsor_files():
+        if rel.endswith("testing.py") or rel.startswith(("funsor/torch/", "funsor/jax/")):
+            continue
+        src, tree = parse(rel)
+        for node in ast.walk(tree):
+            if not isinstance(node, (ast.FunctionDef, ast.AsyncFunctionDef)):
+                continue
+            for d in node.decorator_list:
+                target = d.func if isinstance(d, ast.Call) else d
+                nm = target.attr if isinstance(target, ast.Attribute) else target.id if isinstance(target, ast.Name) else None
+                if nm in MEMO_NAMES:
+                    where = (rel, enclosing(node.body[0]) if node.body else node.name)
+                    found.append(where)
+                    if where not in MEMO_ALLOW:
+                        new.append("%s:%d %s is memoised with %s" % (rel, node.lineno, where[1], nm))
+    # a new strong cache may be harmless (keyed on types): it is UNDECIDED here, and the bounded histories decide retention
+    return {"frame:C07/strong-memo-caches-are-the-reviewed-ones": ob("discharged" if not new else "undecided", "; ".join(new) or "reviewed: %s" % sorted(set(found)))}
